@@ -42,13 +42,13 @@ type Case struct {
 
 var (
 	certFiles   = []string{"", "rsa", "ec", "missing", "garbage"}
-	keyFiles    = []string{"", "rsa", "ec", "missing", "garbage"}
+	keyFiles    = []string{"", "rsa", "ec", "missing", "garbage", "rsa2", "ec2"} // rsa2/ec2: valid keys of the same algorithm that belong to no certificate here
 	loadedCerts = []string{"", "rsa", "ec"}
-	loadedKeys  = []string{"", "rsa", "ec", "ed25519"}
-	caFiles     = []string{"", "ca", "ca2", "missing", "garbage"}
+	loadedKeys  = []string{"", "rsa", "ec", "ed25519", "rsa2", "ec2"}
+	caFiles     = []string{"", "ca", "ca2", "missing", "garbage", "bundle"} // bundle: one file holding ca and ca2
 	loadedCAs   = []string{"", "ca", "ca2"}
 	pools       = []string{"", "ca", "ca2", "empty"}
-	serverNames = []string{"", "server.test", "other.test"}
+	serverNames = []string{"", "server.test", "other.test", "10.1.2.3", "::1"} // a server name may be an IP literal
 	callbacks   = []string{"", "accept", "reject"}
 	servers     = []string{"good", "rogue", "tls11"}
 )
@@ -197,6 +197,9 @@ func (c Case) expect() expectation {
 	fileRoots := []string{}
 	if c.CAFile == "ca" || c.CAFile == "ca2" {
 		fileRoots = []string{c.CAFile}
+	}
+	if c.CAFile == "bundle" {
+		fileRoots = []string{"ca", "ca2"}
 	}
 	unreadable := c.CAFile == "missing" || c.CAFile == "garbage"
 	switch {
